@@ -166,7 +166,32 @@ def sibling_signatures(rep, F, rule='SIBLING-LIMIT'):
         return 0
     sa, sb = guard_signatures(F, fns[0]), guard_signatures(F, fns[1])
     key = 'json_num~json_num_option:same-guard'
-    norm = lambda S: {re.sub(r'tmp(\.\w+)*|var(\.\w+)*', '_', x) for x in S}
+    def norm(S):
+        """canonical predicates: the limit on the right-hand side, the closure parameter replaced by the value the
+        combinator is applied to, `.0` payload projections dropped, the combinator itself (map_or / match / is_some_and) ignored"""
+        recv = None
+        for x in S:
+            m_ = re.match(r'^(\w+) on (.*)$', x)
+            if m_:
+                recv = re.sub(r'\.0$', '', m_.group(2))
+        out = set()
+        flip = {'Lt': 'Gt', 'Le': 'Ge', 'Gt': 'Lt', 'Ge': 'Le', 'Eq': 'Eq', 'Ne': 'Ne'}
+        for x in S:
+            if re.match(r'^\w+ on ', x):
+                continue
+            m_ = re.match(r'^(Lt|Le|Gt|Ge|Eq|Ne)\((.*),([^,]*)\)$', x)
+            if not m_:
+                out.add(x)
+                continue
+            op, a, b = m_.group(1), m_.group(2), m_.group(3)
+            if 'SERDE_SCALE_LIMIT' in a and 'SERDE_SCALE_LIMIT' not in b:
+                op, a, b = flip[op], b, a
+            a = re.sub(r'\.0$', '', a)
+            if a == 'param' and recv:
+                a = recv
+            a = re.sub(r'tmp(\.\w+)*|var(\.\w+)*', '_', a)
+            out.add('%s(%s,%s)' % (op, a, b))
+        return out
     if norm(sa) == norm(sb) and sa:
         rep.ok(rule, key, 'both adapters guard the scale with the same predicate: %s' % sorted(sa), fns[0].where())
     elif not sa or not sb:
